@@ -92,6 +92,9 @@ def run(ctx):
             continue
         ctx.count(repr(case), True)
         check_covered(ctx, case, ex, opts, rexes)
+        if it % 5 == 0:
+            # strings that differ only after an embedded NUL: each is an example of its own, in a column as in a list
+            ex = list(ex) + rng.choice([['id\x00A17', 'id\x00B2931', 'id\x00C5'], ['abc', 'abc\x00'], ['k\x00', 'k\x00\x00x']])
         cols = [pd.Series(ex[:len(ex) // 2] + [None], dtype=object), pd.Series(ex[len(ex) // 2:], dtype=object)]
         case = {'form': 'pdextract', 'examples': repr(ex)[:2000]}
         try:
